@@ -48,3 +48,12 @@ Theorem C01_interpret_is_the_source : forall name v, In (name, v) Gen.InfoModel.
   forall b, interpret v b = TieInterp.interpret_src name b.
 Proof. exact TieInterp.tie_interpret. Qed.
 Print Assumptions C01_interpret_is_the_source.
+
+(* sFlow: SFDecode + the packet breakdown of sampled headers, on ANY datagram of octets and any type filter: Ok, i.e. no
+   checked primitive is violated and no loop outruns its fuel (every loop iteration consumes a tag/length pair of 8 octets
+   and every length read from the wire is unsigned) *)
+From VF Require Proofs.SflowSafety.
+Theorem C01_sflow_never_crashes : forall filter p, wf_bytes p ->
+  exists ok o, SflowSafety.sf_decode_src filter p = Ok (ok, o).
+Proof. intros filter p H. destruct (SflowSafety.sf_decode_src_safe filter p H) as (ok & o & E & _). eauto. Qed.
+Print Assumptions C01_sflow_never_crashes.
